@@ -29,6 +29,8 @@ func npMain(args []string) error {
 	}
 	rng := rand.New(rand.NewSource(*seed))
 	formats := []string{"name%d", "stmt_%d_x", "%d", "fixed", "%s", "%d-%d", "%08d",
+		// the pool's format is a fmt format: escaped percent signs, flags and further verbs around the %d
+		"tmp%%_%d", "%d%%", "%%d", "%d %s", "%+d|%x", "%5d.",
 		// formats longer than any identifier limit: the text is still the format applied to the id
 		strings.Repeat("p", 254) + "%d", strings.Repeat("q", 300) + "_%d_" + strings.Repeat("r", 40)}
 	// long texts are logged as a digest (equal digests <=> equal texts)
@@ -46,8 +48,11 @@ func npMain(args []string) error {
 			n = 64
 		}
 		format := formats[rng.Intn(len(formats))]
+		if sc == 2 || sc == 3 {
+			format = formats[7+rng.Intn(6)]
+		}
 		if sc == 1 {
-			format = formats[7+rng.Intn(2)]
+			format = formats[13+rng.Intn(2)]
 		}
 		procs := []int{1, 2, 4, 16}[rng.Intn(4)]
 		old := runtime.GOMAXPROCS(procs)
